@@ -999,28 +999,54 @@ func (r *Runtime) stringproto_toUpperCase(call FunctionCall) Value {
 	return s.toUpper()
 }
 
+func isWhitespaceUnit(c uint16) bool {
+	if c >= 0xD800 && c <= 0xDFFF {
+		return false
+	}
+	return strings.ContainsRune(parser.WhitespaceChars, rune(c))
+}
+
+// trimString removes leading and/or trailing white space working on UTF-16 code units, so that
+// unpaired surrogates are left alone.
+func trimString(s String, left, right bool) String {
+	a, u := devirtualizeString(s)
+	if u == nil {
+		str := string(a)
+		if left {
+			str = strings.TrimLeft(str, parser.WhitespaceChars)
+		}
+		if right {
+			str = strings.TrimRight(str, parser.WhitespaceChars)
+		}
+		return asciiString(str)
+	}
+	start, end := 0, u.Length()
+	if left {
+		for start < end && isWhitespaceUnit(u.CharAt(start)) {
+			start++
+		}
+	}
+	if right {
+		for end > start && isWhitespaceUnit(u.CharAt(end-1)) {
+			end--
+		}
+	}
+	return u.Substring(start, end)
+}
+
 func (r *Runtime) stringproto_trim(call FunctionCall) Value {
 	r.checkObjectCoercible(call.This)
-	s := call.This.toString()
-
-	// TODO handle invalid UTF-16
-	return newStringValue(strings.Trim(s.String(), parser.WhitespaceChars))
+	return trimString(call.This.toString(), true, true)
 }
 
 func (r *Runtime) stringproto_trimEnd(call FunctionCall) Value {
 	r.checkObjectCoercible(call.This)
-	s := call.This.toString()
-
-	// TODO handle invalid UTF-16
-	return newStringValue(strings.TrimRight(s.String(), parser.WhitespaceChars))
+	return trimString(call.This.toString(), false, true)
 }
 
 func (r *Runtime) stringproto_trimStart(call FunctionCall) Value {
 	r.checkObjectCoercible(call.This)
-	s := call.This.toString()
-
-	// TODO handle invalid UTF-16
-	return newStringValue(strings.TrimLeft(s.String(), parser.WhitespaceChars))
+	return trimString(call.This.toString(), true, false)
 }
 
 func (r *Runtime) stringproto_substr(call FunctionCall) Value {
